@@ -161,7 +161,7 @@ def is_base(t) -> bool:
 
 
 def wf_ty(t) -> bool:
-    if t[0] in ("O", "OL", "T"):
+    if t[0] in ("O", "OL", "P", "T"):
         return is_base(t[1])
     if t[0] == "K":
         return is_base(t[2])
@@ -298,7 +298,7 @@ def _independent_reading(classes, by_name, env, ids) -> list:
             if f.name.startswith("_"):
                 continue
             t = py_to_ty(hints[f.name], env)
-            if t[0] in ("O", "OL", "T"):
+            if t[0] in ("O", "OL", "P", "T"):
                 t = t[1]
             elif t[0] == "K":
                 t = t[2]
@@ -680,7 +680,7 @@ def gen_ann(rng, targets_cls, targets_enum, earlier, variant, unsupported=False)
             a, b = rng.sample(targets_cls, 2)
             return ("U", int(rng.chance(0.6)), ("F", a), ("F", b))
         if w <= 1:
-            return ("P", leaf)
+            return ("D", ("B", 2), leaf)
         if w == 2:
             return ("D", ("B", 2), leaf)
         if w == 3:
@@ -693,8 +693,10 @@ def gen_ann(rng, targets_cls, targets_enum, earlier, variant, unsupported=False)
         return leaf
     if r < 0.52:
         return ("O", leaf)
-    if r < 0.6:
+    if r < 0.56:
         return ("OL", leaf)   # Union[None, T], top level only (typing's cache hides it inside other generics)
+    if r < 0.6:
+        return ("P", leaf)    # T | None (PEP 604), top level only for the same reason
     if r < 0.9:
         return ("K", rng.randint(0, 3), leaf)
     return ("T", leaf)
@@ -1183,6 +1185,8 @@ def check_classification(rep, model_ok: bool, kf_classes: set, depth: int = 2) -
             stats["in_wf_ty"] += 1
             if rt[0] == "OL":
                 stats["union_none_first"] += 1
+            if rt[0] == "P":
+                stats["pep604_top"] += 1
         if model_vals is not None and impl != model_vals[i]:
             stats["mismatch_model"] += 1
             bad_model.append((t, impl, model_vals[i]))
@@ -1204,11 +1208,6 @@ def check_classification(rep, model_ok: bool, kf_classes: set, depth: int = 2) -
                                "impl": dict(zip(PRED_NAMES[:9], impl[:9])), "spec": dict(zip(PRED_NAMES[:9], spec_vals[i])),
                                "model": None if model_vals is None else model_vals[i], "python": _classify_snippet(t),
                                "explanation": "a union of two types without None is classified optional / container / resolved to one of its members"})
-        elif rt[0] == "P" and rt[1][0] in ("C", "E"):
-            stats["pep604_top"] += 1
-            if impl[1] == 0:
-                observations["pep604 `X | None` not recognised as optional (documented-unsupported; observation only)"] = \
-                    observations.get("pep604 `X | None` not recognised as optional (documented-unsupported; observation only)", 0) + 1
         if rt[0] == "K" and rt[1] == 2 and isinstance(impl[9], list):
             observations["is_collection_of_builtins raises on Tuple[T, ...] (AttributeError on Ellipsis; outside the property's kinds)"] = \
                 observations.get("is_collection_of_builtins raises on Tuple[T, ...] (AttributeError on Ellipsis; outside the property's kinds)", 0) + 1
@@ -1327,7 +1326,7 @@ def check_diagrams(rep, cases: List[dict], model_ok: bool, kf_classes: set, tag:
             if pyspec is not None and impl != pyspec:
                 cls = classify_unsupported_diff(c, impl, pyspec)
                 dist["kf_instances"][cls] = dist["kf_instances"].get(cls, 0) + 1
-                if cls == "other" or (cls == "K_union_none_first" and (cls not in kf_classes or (model_ok and impl != model))):
+                if cls == "other" or (cls not in kf_classes or (model_ok and impl != model)):
                     rep.violation(dict(base, kind="counterexample", part="edges", impl=impl, spec=pyspec, model=model,
                                        explanation="differs from the independent reading in a way no listed class explains"))
         elif st == "namesake_missing" and reference is not None and impl != reference and model_ok and impl == model \
@@ -1454,6 +1453,8 @@ def classify_unsupported_diff(case, impl, pyspec) -> str:
     anns = {f["name"]: tt(f["ann"]) for d in case["decls"] for f in d["fields"]}
     if all(anns[inv[e[3]]][0] == "OL" for e in missing):
         return "K_union_none_first"
+    if all(anns[inv[e[3]]][0] == "P" for e in missing):
+        return "K_pep604"
     return "other"
 
 
@@ -1491,7 +1492,7 @@ def replay_finding(rep, f, model_ok: bool) -> None:
                                "spec": impl, "python": snippet(case),
                                "explanation": "the witness of a repaired finding fails again (source changed, or the view no longer drops the inherited edge)"})
             return
-    if f.cls in ("K_union_none_first", "K_two_unresolved", "K_namesake_retry", "K_missing_namesake"):
+    if f.cls in ("K_union_none_first", "K_two_unresolved", "K_namesake_retry", "K_missing_namesake", "K_pep604"):
         still = impl != pyspec and (not model_ok or impl == model)
         if f.kind == "open":
             if still:
